@@ -166,7 +166,8 @@ class H(common.Harness):
         self.la = la
         anns = []
         self.spans = []
-        for j in range(self.M):
+        nann = eng.choose([z3.Int("n_annotations") == k for k in range(self.M + 1)]) if self.params.get("fewer", True) else self.M
+        for j in range(nann):
             s, e = z3.Int(f"s{j}"), z3.Int(f"e{j}")
             eng.add(0 <= s, s <= e, e <= la)
             anns.append(((SInt(s), SInt(e)), B(j), A(j)))
@@ -209,7 +210,7 @@ class H(common.Harness):
             out = TStr([("lit", out)], self.n) if isinstance(out, str) else None
         if out is None:
             return [self.check("returns_text", False, self.witness)]
-        sentinels = {B(j) for j in range(self.M)} | {A(j) for j in range(self.M)}
+        sentinels = {B(j) for j in range(len(self.spans))} | {A(j) for j in range(len(self.spans))}
         body = []
         ok_lits = True
         for a in out.atoms:
@@ -237,7 +238,7 @@ class H(common.Harness):
                 continue
             rest = a[1]
             while rest:
-                for j in range(self.M):
+                for j in range(len(self.spans)):
                     if rest.startswith(B(j)):
                         seq.append(("B", j))
                         rest = rest[len(B(j)) :]
